@@ -11,7 +11,7 @@ then `Execute`) for the opcode subset used by wallet inputs and the tBTC deposit
   minimal script numbers, MINIMALIF (witness v0 only), strict signature / public-key encoding,
   NULLFAIL, CLTV, clean stack;
 * the script sequencing of `Engine.Step` / `verifyWitnessProgram` / `CheckErrorCondition`:
-  plain, P2SH (BIP16), native P2WPKH and P2WSH (BIP141/143).  Nested P2SH-witness is declined.
+  plain, P2SH (BIP16), native and P2SH-nested P2WPKH / P2WSH (BIP141/143).
 
 External functions are *parameters* (`Ctx`): `hash160`, `sha256`, the signature-encoding check
 (DER + low S), public key parsing, the signature hash as a function of exactly the arguments btcd
@@ -455,6 +455,33 @@ def checkFinal (witActive : Bool) (stack : List Bytes) : Except Err Unit :=
 
 def tooBigElement (stack : List Bytes) : Bool := stack.any (fun e => decide (e.length > 520))
 
+/-- `verifyWitnessProgram` (+ the execution of the script it selects and the final check):
+    version-0 programs of 20 bytes (P2WPKH) and 32 bytes (P2WSH); other versions are
+    discouraged by the standard flags. -/
+def verifyWitness {D} (cx : Ctx D) (ver : Nat) (prog : Bytes) (witness : List Bytes) :
+    Except Err Unit :=
+  if ver ≠ 0 then .error .discourageUpgradableWitnessProgram
+  else if prog.length == 20 then
+    if witness.length ≠ 2 then .error .witnessProgramMismatch
+    else if tooBigElement witness then .error .elementTooBig
+    else match runScript cx true (p2pkh prog) witness.reverse with
+      | .error e => .error e
+      | .ok s3 => checkFinal true s3
+  else if prog.length == 32 then
+    match witness.getLast? with
+    | none => .error .witnessProgramEmpty
+    | some ws =>
+      if ws.length > 10000 then .error .scriptTooBig
+      else if cx.sha256 ws != prog then .error .witnessProgramMismatch
+      else match parse ws with
+      | none => .error .malformedPush
+      | some _ =>
+        if tooBigElement witness.dropLast then .error .elementTooBig
+        else match runScript cx true ws witness.dropLast.reverse with
+          | .error e => .error e
+          | .ok s3 => checkFinal true s3
+  else .error .witnessProgramWrongLength
+
 /-- Validation of one transaction input: `NewEngine(pkScript, tx, idx, StandardVerifyFlags, nil,
     nil, amount)` followed by `Execute()`.  `witness[0]` is the bottom of the witness stack. -/
 def verifyInput {D} (cx : Ctx D) (scriptSig : Bytes) (witness : List Bytes) (pkScript : Bytes) :
@@ -477,7 +504,10 @@ def verifyInput {D} (cx : Ctx D) (scriptSig : Bytes) (witness : List Bytes) (pkS
         if !witness.isEmpty && bip16 then
           match sigOps with
           | [.push enc d] =>
-            if canonicalPush (.push enc d) && isWitnessProgramBytes d then .error .unsupported
+            if canonicalPush (.push enc d) && isWitnessProgramBytes d then
+              match parse d with
+              | some dOps => .ok (witnessProgram? dOps)
+              | none => .error .witnessMalleatedP2SH
             else .error .witnessMalleatedP2SH
           | _ => .error .witnessMalleatedP2SH
         else if !witness.isEmpty then .error .witnessUnexpected
@@ -503,34 +533,16 @@ def verifyInput {D} (cx : Ctx D) (scriptSig : Bytes) (witness : List Bytes) (pkS
             else match s1.stack with
             | [] => .error .invalidStackOperation
             | script :: restStack =>
-              match runScript cx false script restStack with
+              match runScript cx witActive script restStack with
               | .error e => .error e
-              | .ok s3 => checkFinal false s3
+              | .ok s3 =>
+                match wp with
+                | none => checkFinal false s3
+                | some (ver, prog) => verifyWitness cx ver prog witness   -- P2SH-nested witness
         else
           match wp with
           | none => checkFinal false s2.stack
-          | some (ver, prog) =>
-            if ver ≠ 0 then .error .discourageUpgradableWitnessProgram
-            else if prog.length == 20 then
-              if witness.length ≠ 2 then .error .witnessProgramMismatch
-              else if tooBigElement witness then .error .elementTooBig
-              else match runScript cx true (p2pkh prog) witness.reverse with
-                | .error e => .error e
-                | .ok s3 => checkFinal true s3
-            else if prog.length == 32 then
-              match witness.getLast? with
-              | none => .error .witnessProgramEmpty
-              | some ws =>
-                if ws.length > 10000 then .error .scriptTooBig
-                else if cx.sha256 ws != prog then .error .witnessProgramMismatch
-                else match parse ws with
-                | none => .error .malformedPush
-                | some _ =>
-                  if tooBigElement witness.dropLast then .error .elementTooBig
-                  else match runScript cx true ws witness.dropLast.reverse with
-                    | .error e => .error e
-                    | .ok s3 => checkFinal true s3
-            else .error .witnessProgramWrongLength
+          | some (ver, prog) => verifyWitness cx ver prog witness
 
 def showResult : Except Err Unit → String
   | .ok _ => "accept"
